@@ -56,6 +56,25 @@ END
 ".to_string()]
 }
 
+/// IMPORTS of types and values from two modules: the use lines an option may (wildcard) or may not touch
+fn import_modules() -> Vec<String> {
+    vec!["Pkix-Base DEFINITIONS AUTOMATIC TAGS ::= BEGIN
+Certificate ::= SEQUENCE { serial INTEGER, name Name }
+Name ::= IA5String
+Key-Id ::= OCTET STRING
+max-chain INTEGER ::= 8
+END
+".to_string(), "Pkix-More DEFINITIONS AUTOMATIC TAGS ::= BEGIN
+Policy ::= ENUMERATED { strict, lax }
+END
+".to_string(), "Pkix-User DEFINITIONS AUTOMATIC TAGS ::= BEGIN
+IMPORTS Certificate, Name, Key-Id, max-chain FROM Pkix-Base Policy FROM Pkix-More;
+Chain ::= SEQUENCE (SIZE (1..max-chain)) OF Certificate
+Holder ::= SEQUENCE { name Name, key Key-Id OPTIONAL, policy Policy DEFAULT strict }
+END
+".to_string()]
+}
+
 #[derive(Debug, Clone, PartialEq)]
 struct ValueItem {
     name: String,
@@ -241,7 +260,33 @@ fn status_of(o: &run::Outcome) -> String {
     if o.status == "ok" && !o.warnings.is_empty() { "warn".into() } else { o.status.clone() }
 }
 
+/// the Rust names that the use lines of the default output import from sibling modules, sorted, each once
+fn imported_symbols(k: &rsproj::RCrate) -> Vec<String> {
+    let mut syms: Vec<String> = vec![];
+    for m in &k.modules {
+        let (_, _, sup, _) = classify_uses(m);
+        for u in sup {
+            for n in u["list"].as_array().cloned().unwrap_or_default() {
+                if let Some(n) = n.as_str() {
+                    if n != "*" && !syms.contains(&n.to_string()) {
+                        syms.push(n.to_string());
+                    }
+                }
+            }
+        }
+    }
+    syms.sort();
+    syms
+}
+
 fn events_for(ci: usize, input: &Input, cfg: &Value) -> Vec<Value> {
+    // imports = 9: custom imports made from the module set's own imported symbols (Options!Colliding)
+    let syms = imported_symbols(&input.base_crate);
+    let mut cfg = cfg.clone();
+    if cfg["cfg"]["imports"] == 9 {
+        cfg["custom_imports"] = json!(syms.iter().map(|n| format!("verif_s::Pinned{n}")).collect::<Vec<_>>());
+    }
+    let cfg = &cfg;
     let (o, _) = run::compile_rasn(&input.sources, config_of(cfg));
     let text = input.sources.join("\n");
     let mut evs = vec![json!({"ev": "cfgrun", "case": ci, "cfg": cfg["cfg"], "base_status": status_of(&input.base), "obs_status": status_of(&o),
@@ -258,7 +303,9 @@ fn events_for(ci: usize, input: &Input, cfg: &Value) -> Vec<Value> {
     for b in &input.base_crate.modules {
         if let Some(m) = k.modules.iter().find(|m| m.name == b.name) {
             let asn = input.sources.iter().find(|s| s.to_lowercase().replace('-', "_").starts_with(&b.name)).cloned().unwrap_or_else(|| text.clone());
-            evs.push(module_event(ci, cfg, b, m, &asn));
+            let mut ev = module_event(ci, cfg, b, m, &asn);
+            ev["syms"] = json!(syms);
+            evs.push(ev);
         }
     }
     evs
@@ -271,7 +318,7 @@ pub fn drive(args: &[String]) -> i32 {
     let sets = util::read_ndjson(util::arg(args, "--sets").expect("--sets"));
     let per_set: usize = util::arg(args, "--per-set").and_then(|s| s.parse().ok()).unwrap_or(8);
     // inputs: the CHOICE pattern module, the information-object module, then the generated module sets
-    let mut sources: Vec<Vec<String>> = vec![vec![choice_module(&patterns)], object_module()];
+    let mut sources: Vec<Vec<String>> = vec![vec![choice_module(&patterns)], object_module(), import_modules()];
     for s in &sets {
         let t = Table::from_json(s);
         sources.push((1..=t.mods.tagdef.len()).map(|m| t.module_text(m, None)).collect());
@@ -287,7 +334,7 @@ pub fn drive(args: &[String]) -> i32 {
     });
     let mut jobs: Vec<(usize, usize)> = vec![];
     for i in 0..inputs.len() {
-        if i < 2 || per_set >= cfgs.len() {
+        if i < 3 || per_set >= cfgs.len() {
             jobs.extend((0..cfgs.len()).map(|j| (i, j)));
         } else {
             jobs.extend((0..per_set).map(|k| (i, (i * 7 + k * 29) % cfgs.len())));
